@@ -17,7 +17,7 @@ open Desper Desper.World
 /-- Attach, dispatching enabled: a handler component that declares `on_add` receives it exactly
 once (one new log entry, carrying its real owner), nothing is postponed, and the component is
 registered as a listener of the world. -/
-theorem C02_attach_enabled (U : Universe) (hn : NoRaise U) (s : St) (c : Obj) (e : Ent) (m : Mapping)
+theorem C02_attach_enabled (U : Universe) [U.Passive] (hn : NoRaise U) (s : St) (c : Obj) (e : Ent) (m : Mapping)
     (meth : String) (hm : U.mapOf c = some m) (hon : Dict.get? m onAdd = some meth)
     (hen : s.enabled = true) :
     (attachEvents U s c (some e)).2 = .ok ∧
@@ -77,7 +77,7 @@ theorem C02_attach_silent (U : Universe) (s : St) (c : Obj) (e : Ent)
 /-- Detach (every way of detaching goes through `remove_component`), dispatching enabled: the
 component stops being attached, receives `on_remove` exactly once with its real owner, and is
 not a listener of the world any more. -/
-theorem C02_detach_enabled (U : Universe) (hn : NoRaise U) (s : St) (e : Ent) (t : Ty) (c : Obj)
+theorem C02_detach_enabled (U : Universe) [U.Passive] (hn : NoRaise U) (s : St) (e : Ent) (t : Ty) (c : Obj)
     (m : Mapping) (meth : String) (hc : Dict.get? (row s e) t = some c)
     (hm : U.mapOf c = some m) (hon : Dict.get? m onRemove = some meth) (hen : s.enabled = true) :
     (removeComponent U s e t).2.1 = .ok ∧ (removeComponent U s e t).2.2 = some c ∧
@@ -98,7 +98,7 @@ theorem C02_detach_enabled (U : Universe) (hn : NoRaise U) (s : St) (e : Ent) (t
 /-- Postponed callbacks are delivered in operation order, each exactly once, when dispatching is
 re-enabled: with a queue of relays whose handlers declare the relayed event, enabling logs one
 lifecycle entry per relay, in queue order, and empties the queue. -/
-theorem C02_postponed_in_order (U : Universe) (hn : NoRaise U) (s : St)
+theorem C02_postponed_in_order (U : Universe) [U.Passive] (hn : NoRaise U) (s : St)
     (hk : s.known.contains onSingle = true) (hs : s.selfReg = true)
     (rel : List (String × Obj × Option Ent × String))
     (hq : s.queue = rel.map (fun r => QEv.relay r.1 r.2.1 r.2.2.1))
@@ -131,7 +131,7 @@ toggles) in which instances are attached fresh (`FreshHist`: an instance is atta
 entity at a time, a `create_entity` call gets components of pairwise distinct types — the D5a
 finding is outside —, components are not processors) and no callback raises.  A handler processor
 is registered exactly while it is one of the world's processors. -/
-theorem C02_registered_iff_attached (U : Universe) (hn : NoRaise U) (hints : List (List Ent))
+theorem C02_registered_iff_attached (U : Universe) [U.Passive] (hn : NoRaise U) (hints : List (List Ent))
     (ops : List Op) (hf : FreshHist U { sweepHints := hints } ops) (o : Obj)
     (ho : (U.mapOf o).isSome) :
     let s := run U { sweepHints := hints } ops
